@@ -8,7 +8,7 @@ and container updates and the number of rejecting checks before its first write 
 `Generated/C03Mutators.lean`; the obligations on that table are discharged by computation on the generated
 definitions (`C03_table_*`), so a removed decorator or a moved `_remove_id` breaks this file on the next run.
 -/
-import MxlVerif.Lemmas.C03Det
+import MxlVerif.Lemmas.C03Rebuild
 namespace Mxl.C03
 open Mxl
 
@@ -516,6 +516,47 @@ theorem C03_query_transparent (h : List HOp) (q0 : Query) (h' : List HOp) :
   rw [run_append, run_append]
   obtain ⟨hc, hi, _, ha, ho⟩ := sim_obs (run_sim h' hs)
   exact ⟨hc, hi, ha, ho⟩
+
+/-! ## refinement: the edited model IS a freshly built model with the same content, up to the cache -/
+
+/-- The central statement as a refinement.  Take ANY history (edits accepted or rejected, queries, deep copies) and
+    the state `s` it ends in.  Build a new model from scratch by the `add_*` calls of `rebuild` (one per component of
+    `s.content`, container by container — the same calls the harness' fresh-model oracle makes on the real code).
+    Then the new model has EXACTLY the content of `s` (so none of the calls was rejected: a rejected call leaves its
+    component out, `C03_rejected_is_noop`), its `_ids` are those of `s` up to order, its name space is exact, its cache is valid, and it answers every query exactly as `s` does.
+    (`freshAnswer`, the right-hand side of `C03_fresh_equiv`, is therefore what an actual freshly built model
+    answers: `C03_fresh_is_rebuilt`.) -/
+theorem C03_refines_fresh (h : List HOp) :
+    (freshState (run init h)).content = (run init h).content ∧
+    (omKeys (freshState (run init h)).ids).Perm (omKeys (run init h).ids) ∧
+    Exact (freshState (run init h)) ∧ CacheOK (freshState (run init h)) ∧
+    (∀ q, (query (freshState (run init h)) q).2 = (query (run init h) q).2) := by
+  have hs := C03_ids_exact h
+  obtain ⟨hx, hc, hg⟩ := rebuild_spec hs
+  have hok : CacheOK (freshState (run init h)) := C03_cache_valid _
+  refine ⟨hc, ?_, hx, hok, fun q => ?_⟩
+  · have p1 := (C03_one_name_space (rebuild (run init h).sigs (run init h).content)).1
+    have p2 := (C03_one_name_space h).1
+    have e : (run init (rebuild (run init h).sigs (run init h).content)).content = (run init h).content := hc
+    rw [e] at p1
+    exact p1.trans p2.symm
+  · by_cases hq : q = .eqFresh
+    · subst hq
+      rw [C03_eq_fresh h]
+      exact C03_eq_fresh (rebuild (run init h).sigs (run init h).content)
+    · have e1 := C03_fresh_equiv (rebuild (run init h).sigs (run init h).content) q hq
+      have e2 := C03_fresh_equiv h q hq
+      have hc' : (run init (rebuild (run init h).sigs (run init h).content)).content = (run init h).content := hc
+      have hg' : (run init (rebuild (run init h).sigs (run init h).content)).sigs
+          = sigFold (run init h).sigs (fnKeys (run init h).content) [] := hg
+      rw [hc', hg', freshAnswer_rebuilt] at e1
+      exact e1.trans e2.symm
+
+/-- `freshAnswer` is not only a definition: it is what the model built from scratch answers -/
+theorem C03_fresh_is_rebuilt (h : List HOp) (q : Query) (hq : q ≠ .eqFresh) :
+    (query (freshState (run init h)) q).2 = freshAnswer (run init h).sigs (run init h).content q := by
+  rw [(C03_refines_fresh h).2.2.2.2 q]
+  exact C03_fresh_equiv h q hq
 
 /-! ## non-vacuity -/
 
